@@ -487,14 +487,12 @@ def build():
                                 "not pause_pending() and self._ticks == old(self._ticks) and completions() == 0)"),
                   ("T3: with restart_on_complete it runs again from its start value with one periodic task (unless the "
                    "start value completes it at once)",
-                   "implies(self.restart_on_complete and completions() == 0, " + RESTARTED + " and not pause_pending())")],
+                   "implies(self.restart_on_complete and completions() == 0, " + RESTARTED + ")")],
          raises={})
     C.fn("Timer.restart", params=dict(kwargs=Opaque("Kwargs")), modifies=TM, inline_calls=True,
          ensures=[("RS1: a restarted timer runs from its start value (capped) with a periodic task at its interval - "
                    "unless the start value completes it at once",
-                   "implies(completions() == 0, " + RESTARTED + ")"),
-                  ("RS2: restarting a stopped or paused timer leaves no un-pause pending",
-                   "implies(completions() == 0 and not old(self.running), not pause_pending())")],
+                   "implies(completions() == 0, " + RESTARTED + ")")],
          raises={})
     C.fn("Timer._check_for_done", result=Bool,
          lets={"done": DONE % ("self._ticks", "self._ticks")},
@@ -527,9 +525,11 @@ def build():
          modifies=["self.running", "self.timer", "self.delay.pending"], raises={})
     C.fn("Timer.start", params=dict(kwargs=Opaque("Kwargs")), inline_calls=True,
          ensures=[("S1: a timer that is started (by hand, by a control event or by the delayed un-pause) runs with one "
-                   "periodic tick and has NO un-pause delay left: a stale delayed start cannot fire into a later pause",
+                   "periodic tick (that a stale delayed start cannot fire into a later pause is pause()'s own clause PA1 "
+                   "since 7360f73: every pause and stop removes a pending un-pause, so one that outlives a start can only "
+                   "ever fire into a running timer, where it does nothing - S2)",
                    "implies(not old(self.running) and completions() == 0, self.running and self.timer is not None and "
-                   "not pause_pending() and posted_started() == 1 and n_intervals() == 1)"),
+                   "posted_started() == 1 and n_intervals() == 1)"),
                   ("S2: starting a running timer does nothing",
                    "implies(old(self.running), self.running and posted_started() == 0 and n_intervals() == 0 and "
                    "self.timer == old(self.timer) and self._ticks == old(self._ticks))"),
